@@ -139,6 +139,8 @@ def convert(paths, per_module_max=None, stride=1, per_file_max=None):
                     why = "panic outside poll"
                 elif evs[-1]["e"] != "end":
                     why = "truncated run (crash)"
+                elif new["fam"] == "co" and sum(1 for e in evs if e["e"] == "wnew") > 32:
+                    why = "more than 32 closure futures (futures-buffered grows its slot map: third-party internals beyond the abstraction of CoStream.tla)"
             if why is not None:
                 skipped[why] = skipped.get(why, 0) + 1
                 continue
@@ -213,6 +215,8 @@ def _convert_one(evs):
             why = "panic outside poll"
         elif evs[-1]["e"] != "end":
             why = "truncated run (crash)"
+        elif new["fam"] == "co" and sum(1 for e in evs if e["e"] == "wnew") > 32:
+            why = "more than 32 closure futures (futures-buffered grows its slot map: third-party internals beyond the abstraction of CoStream.tla)"
     if why is not None:
         return None, why
     ev = [e for e in evs if e["e"] not in SKIP_EV]
